@@ -328,7 +328,7 @@ func vC20Diff[T float32 | float64]() {
 	// effects on every backing array
 	// (the default engine's one-element incr case overwrites its first operand: C07's open finding - the specialised engines
 	// do not share it, so the comparison is not made there)
-	kfIncr1 := mode == "incr" && vProd(shape) == 1
+	kfIncr1 := (mode == "incr" || op == "FMA" || op == "FMAScalar") && vProd(shape) == 1 // (the default engine's FMA is Mul with incr)
 	for k := range r0.ra {
 		vAssertKF(vSameBits(r0.ra[k], r1.ra[k]), "effect-a", "KF-C07-incr1", kfIncr1)
 	}
